@@ -3,22 +3,11 @@
    pixel (Finite, all 256 neighbourhoods); hence 4 W = 4 k for every image that is reduced to the
    empty set by simple deletions and k deletions of isolated points (euler_reducible, Full). *)
 From Coq Require Import ZArith List Bool Lia ZifyBool.
-From Centro Require Import Base.GraphC15 Model.LabelGraph Spec.LabelGraph Proofs.NeighborsC15 Proofs.EulerQuadC15.
+From Centro Require Import Base.GraphC15 Model.LabelGraph Spec.LabelGraph Spec.EulerMovesC15 Proofs.NeighborsC15 Proofs.EulerQuadC15.
 Import ListNotations.
 Open Scope Z_scope.
 
 (* ---------------------------------------------------------------- writing one pixel *)
-Fixpoint upd_nth {A} (k : nat) (f : A -> A) (l : list A) : list A :=
-  match l with
-  | [] => []
-  | a :: r => match k with O => f a :: r | S k' => a :: upd_nth k' f r end
-  end.
-Definition set_px (img : image) (y x v : Z) : image :=
-  if (y <? 0) || (x <? 0) then img
-  else upd_nth (Z.to_nat y) (upd_nth (Z.to_nat x) (fun _ => v)) img.
-(* delete pixel (y, x): it becomes background *)
-Definition remove_px (img : image) (y x : Z) : image := set_px img y x 0.
-
 Lemma upd_nth_length {A} (f : A -> A) l : forall k, length (upd_nth k f l) = length l.
 Proof. induction l as [|a r IH]; intros [|k]; cbn [upd_nth length]; auto. Qed.
 Lemma nth_error_upd_same {A} (f : A -> A) l : forall k, nth_error (upd_nth k f l) k = option_map f (nth_error l k).
@@ -149,23 +138,6 @@ Qed.
 End Step.
 
 (* ---------------------------------------------------------------- simple and isolated pixels (3x3) *)
-(* cells of the punctured neighbourhood with their bits, as pixels around (0, 0) *)
-Definition nb_cells (n00 n01 n02 n10 n12 n20 n21 n22 : bool) : list (px * bool) :=
-  [((-1,-1), n00); ((-1,0), n01); ((-1,1), n02); ((0,-1), n10); ((0,1), n12); ((1,-1), n20); ((1,0), n21); ((1,1), n22)].
-(* (8,4)-simple: exactly one 8-component of the set in the punctured neighbourhood, and exactly one
-   4-component of the background there that contains a 4-neighbour of the centre *)
-Definition simple8 (n00 n01 n02 n10 n12 n20 n21 n22 : bool) : bool :=
-  let cells := nb_cells n00 n01 n02 n10 n12 n20 n21 n22 in
-  let fg := map fst (filter snd cells) in
-  let bg := map fst (filter (fun c => negb (snd c)) cells) in
-  let seeds := filter (fun p => adj4 p (0, 0)) bg in
-  let others := filter (fun p => negb (adj4 p (0, 0))) bg in
-  let unreachable := fill adj4 (S (length bg)) seeds others in
-  (n_components adj8 fg =? 1) &&
-  (n_components adj4 bg - n_components adj4 unreachable =? 1).
-Definition isolated8 (n00 n01 n02 n10 n12 n20 n21 n22 : bool) : bool :=
-  negb (n00 || n01 || n02 || n10 || n12 || n20 || n21 || n22).
-
 Ltac all8 := intros n00 n01 n02 n10 n12 n20 n21 n22;
   destruct n00, n01, n02, n10, n12, n20, n21, n22; vm_compute; first [reflexivity | discriminate | tauto].
 
@@ -197,14 +169,6 @@ Proof.
 Qed.
 
 (* ---------------------------------------------------------------- reduction sequences *)
-Definition nb_bit (img : image) (l y x dy dx : Z) : bool := inS img l (y + dy) (x + dx).
-Definition simple_at (img : image) (l y x : Z) : bool :=
-  simple8 (nb_bit img l y x (-1) (-1)) (nb_bit img l y x (-1) 0) (nb_bit img l y x (-1) 1) (nb_bit img l y x 0 (-1))
-          (nb_bit img l y x 0 1) (nb_bit img l y x 1 (-1)) (nb_bit img l y x 1 0) (nb_bit img l y x 1 1).
-Definition isolated_at (img : image) (l y x : Z) : bool :=
-  isolated8 (nb_bit img l y x (-1) (-1)) (nb_bit img l y x (-1) 0) (nb_bit img l y x (-1) 1) (nb_bit img l y x 0 (-1))
-            (nb_bit img l y x 0 1) (nb_bit img l y x 1 (-1)) (nb_bit img l y x 1 0) (nb_bit img l y x 1 1).
-
 (* [Reduces l img k]: the pixel set of l is emptied by deleting simple pixels and, k times, an
    isolated point *)
 Inductive Reduces (l : Z) : image -> Z -> Prop :=
